@@ -74,7 +74,7 @@ func (c15) Describe() runner.Description {
 	}
 }
 
-var c15Kinds = []string{"otherhash", "replay", "dup", "nonmember", "garbage", "badbeacon", "badblock"}
+var c15Kinds = []string{"otherhash", "otherblock", "replay", "dup", "nonmember", "garbage", "badbeacon", "badblock"}
 
 func (c15) Gen(seed uint64, tier string) json.RawMessage {
 	r := simrt.NewRand(seed)
@@ -252,6 +252,10 @@ func (c15) Exec(raw json.RawMessage, st *simrt.Stats, log *simrt.Log) *simrt.Vio
 		case "otherhash":
 			st.Fault("byz_other_hash")
 			return c15Wire(bh.Hash, otherHash, groupsig.Sign(sks[j], otherHash.Bytes()).Serialize(), rs, idb)
+		case "otherblock":
+			// message and share consistently name ANOTHER hash (e.g. the party's earlier key), yet reach this party
+			st.Fault("byz_other_hash")
+			return c15Wire(otherHash, otherHash, groupsig.Sign(sks[j], otherHash.Bytes()).Serialize(), rs, idb)
 		case "replay":
 			st.Fault("byz_replay_member")
 			o := (j + 1 + m.Arg%(n-1)) % n
